@@ -10,7 +10,11 @@ P1  TLC checks the invariants of the property (disposition = max(internal,
 P2  every distinct state of that graph is rebuilt on a real
     yash_env::trap::TrapSet over Rc<Concurrent<VirtualSystem>> (its history is
     replayed) and every operation of the alphabet is applied there; what the
-    public API and the simulated process show afterwards is recorded.
+    public API and the simulated process show afterwards is recorded.  For
+    every operation that makes two or more system calls, every signal is also
+    raised just before each later system call of the operation (a harness-side
+    wrapper of the SignalSystem): the outcome must be that of the signal
+    arriving before or after the whole operation.
 P3  all records (histories step by step, then one record per (state,
     operation)) plus long random histories over all conditions are validated
     by TLC against the abstract contract spec/TrapAbs.tla (Trace_Trap).
@@ -53,9 +57,10 @@ THOROUGH_GEN = [
     (("QUIT", "TERM"), False, 100),
     (("CHLD", "TERM"), True, 100),
     (("INT", "KILL"), True, 100),
-    (("INT", "QUIT", "TERM"), False, 6),
-    (("USR1", "CHLD", "INT"), False, 6),
-    (("USR1", "CHLD", "INT", "QUIT", "TERM", "TSTP", "KILL", "STOP"), True, 3),
+    (("INT", "QUIT", "TERM"), False, 5),
+    (("USR1", "CHLD", "INT"), False, 5),
+    # all signal classes at once, from the two uniform start-ups (all default / all ignored)
+    (("USR1", "CHLD", "INT", "QUIT", "TERM", "TSTP", "KILL", "STOP"), True, 2),
 ]
 
 CFG_TEMPLATE = """SPECIFICATION Spec
@@ -63,6 +68,7 @@ CONSTANTS
   Sigs = {%s}
   WithExit = %s
   MaxH = %d
+  UniformInit = %s
 VIEW view
 INVARIANT Consistent
 INVARIANT EmitState
@@ -81,7 +87,8 @@ def _is_boundary(line):
 
 
 def _validate_file(path, tag):
-    """One JVM over one ndjson piece.  Returns (n_processed_ok, [failure dicts])."""
+    """One JVM over one ndjson piece.  Returns the list of rejections
+    [{"l": 1-based line, "why": [names of the failed checks]}]."""
     wd = os.path.join(os.path.dirname(path), "meta-" + tag)
     os.makedirs(wd, exist_ok=True)
     r = vlib.tlc("Trace_Trap", "Trace_Trap.cfg", workers=1, timeout=1500, env={"TRACE": os.path.abspath(path)},
@@ -219,6 +226,7 @@ def _generate(wd, cfg, conds, name, workers, mid):
     return r, st, trace
 
 
+BATCH = 700_000      # records per validation batch (bounds the memory of the driver)
 SIM_WAIT_ARTIFACT = "no job to wait for"
 
 
@@ -321,7 +329,8 @@ def run(tier):
             name = "MC_Trap_gen_" + "_".join(s.lower() for s in sigs) + ("_exit" if ex else "") + f"_h{maxh}.cfg"
             path = os.path.join(wd, name)
             with open(path, "w") as f:
-                f.write(CFG_TEMPLATE % (", ".join(f'"{s}"' for s in sigs), "TRUE" if ex else "FALSE", maxh))
+                f.write(CFG_TEMPLATE % (", ".join(f'"{s}"' for s in sigs), "TRUE" if ex else "FALSE", maxh,
+                                        "TRUE" if len(sigs) > 3 else "FALSE"))
             configs.append((path, ",".join(sigs) + (",EXIT" if ex else ""), name))
     for d in ("meta-" + n for _, _, n in configs):
         os.makedirs(os.path.join(wd, d), exist_ok=True)
@@ -333,36 +342,44 @@ def run(tier):
     runs, steps = (400, 40) if tier == "quick" else (6000, 60)
     _, _, err = vlib.run_harness(PKG, ["random", "--runs", str(runs), "--steps", str(steps), "--out", rtrace])
     rst = json.loads(err.strip().splitlines()[-1])
-    # one validation pass over everything (each history starts with its own reset record)
-    alltrace = os.path.join(wd, "all.trace.ndjson")
-    ranges = []
-    pos = 0
-    with open(alltrace, "w") as out:
-        for (cfg, conds, name), (r, st, trace) in list(zip(configs, gens)) + [((None, ",".join(ALL_CONDS), "random"), (None, rst, rtrace))]:
-            n = 0
-            with open(trace) as f:
-                for i, line in enumerate(f):
-                    out.write(line)
-                    n += 1
-                    if len(samples) < 3 and i in (0, 57, 4242) and name == QUICK[0][0]:
-                        samples.append(json.loads(line))
-            ranges.append((pos, pos + n, name, conds))
-            pos += n
-            os.remove(trace)
-        nmid = 0
-        for (cfg, conds, name), (r, st, trace) in zip(configs, gens):
-            if st.get("mid_trace"):
-                n = 0
-                with open(st["mid_trace"]) as f:
-                    for line in f:
-                        out.write(line)
-                        n += 1
-                ranges.append((pos, pos + n, "mid:" + name, conds))
-                pos += n
-                nmid += n
-                os.remove(st["mid_trace"])
-    info = validate(rep, alltrace, ranges, shards=8 if tier == "quick" else 12)
-    os.remove(alltrace)
+    # validation: everything is concatenated (each history starts with its own reset record) and
+    # validated in batches of at most BATCH records
+    parts = [(name, conds, trace) for (cfg, conds, name), (r, st, trace) in zip(configs, gens)]
+    parts.append(("random", ",".join(ALL_CONDS), rtrace))
+    nmid = 0
+    for (cfg, conds, name), (r, st, trace) in zip(configs, gens):
+        if st.get("mid_trace"):
+            parts.append(("mid:" + name, conds, st["mid_trace"]))
+            nmid += st["mid"]
+    with open(parts[0][2]) as f:
+        for i, line in enumerate(f):
+            if i in (0, 57, 4242):
+                samples.append(json.loads(line))
+            if i > 4242:
+                break
+    info = {"events": 0, "failures": 0, "skipped": 0, "wall": 0.0, "per_range": {}}
+    batch, size = [], 0
+    sized = [(p, vlib.count_lines(p[2])) for p in parts]
+    for k, (part, n) in enumerate(sized):
+        batch.append((part, n))
+        size += n
+        if size >= BATCH or k == len(sized) - 1:
+            alltrace = os.path.join(wd, "batch.trace.ndjson")
+            ranges, pos = [], 0
+            with open(alltrace, "w") as out:
+                for (name, conds, trace), cnt in batch:
+                    with open(trace) as f:
+                        for line in f:
+                            out.write(line)
+                    ranges.append((pos, pos + cnt, name, conds))
+                    pos += cnt
+                    os.remove(trace)
+            one = validate(rep, alltrace, ranges, shards=8 if tier == "quick" else 12)
+            os.remove(alltrace)
+            for key in ("events", "failures", "skipped", "wall"):
+                info[key] += one[key]
+            info["per_range"].update(one["per_range"])
+            batch, size = [], 0
     vlib.log(f"[p3] {info['events']} records validated against TrapAbs in {info['wall']:.1f}s "
              f"({info['failures']} rejected, {info['skipped']} skipped downstream of a rejected step)")
     states = transitions = tries = drift = 0
